@@ -22,6 +22,9 @@ namespace Rlib.Segtree
 structure Item (T M A : Type) where
   /-- `SegtreeItem::merge(left, right)` -/
   merge  : T → T → T
+  /-- `SegtreeItem::update(&mut self, left, right)`: new `self` (what `merge_at` / `rebuild_empty` call; the trait's
+      default is `*self = merge(left, right)`, an item may override it) -/
+  update : T → T → T → T
   /-- `SegtreeItem::modify(&mut self, m)` -/
   modify : T → M → T
   /-- `SegtreeItem::push(&mut self, left, right)`: new `(self, left, right)` -/
@@ -74,10 +77,10 @@ def pushAt : Tree T → Tree T
     let p := I.push v l.root r.root
     .node p.1 (l.setRoot p.2.1) (r.setRoot p.2.2)
 
-/-- `merge_at(i)` with the default `update` (`*self = merge(left, right)`) -/
+/-- `merge_at(i)`: `data[i].update(&data[2i+1], &data[2i+2])` -/
 def mergeAt : Tree T → Tree T
   | .leaf v => .leaf v
-  | .node _ l r => .node (I.merge l.root r.root) l r
+  | .node v l r => .node (I.update v l.root r.root) l r
 
 /-- `rebuild_empty(i, l, r)` on an array pre-filled with `v` (constructor `new`). -/
 def buildEmpty (v : T) (l r : Nat) : Tree T :=
@@ -367,6 +370,42 @@ inductive Ans (A : Type) where
   | idx (o : Option Nat)       -- answer of a boundary search
   | vals (as : List A)         -- observable values of `debug()`
   deriving Repr, DecidableEq
+
+/-- no boundary search in the operation (a search predicate on a `Combinator` need not factor through a component) -/
+def Op.noSearch : Op T M → Bool
+  | .lb _ _ => false
+  | .lbr _ _ => false
+  | _ => true
+
+/-- the operation as the first / second component of a `Combinator` sees it -/
+def Op.proj1 {U : Type} : Op (T × U) M → Op T M
+  | .set i x => .set i x.1
+  | .modify l r m => .modify l r m
+  | .ask l r => .ask l r
+  | .lb l _ => .lb l (fun _ => false)
+  | .lbr r _ => .lbr r (fun _ => false)
+  | .dbg => .dbg
+
+def Op.proj2 {U : Type} : Op (T × U) M → Op U M
+  | .set i x => .set i x.2
+  | .modify l r m => .modify l r m
+  | .ask l r => .ask l r
+  | .lb l _ => .lb l (fun _ => false)
+  | .lbr r _ => .lbr r (fun _ => false)
+  | .dbg => .dbg
+
+/-- two answers side by side -/
+def Ans.pair {B : Type} : Ans A → Ans B → Ans (A × B)
+  | .done, .done => .done
+  | .panic p, .panic _ => .panic p
+  | .val a, .val b => .val (a, b)
+  | .idx o, .idx _ => .idx o
+  | .vals as, .vals bs => .vals (List.zip as bs)
+  | _, _ => .panic .fuel
+
+def Ans.pairs {B : Type} : List (Ans A) → List (Ans B) → List (Ans (A × B))
+  | a :: as, b :: bs => Ans.pair a b :: Ans.pairs as bs
+  | _, _ => []
 
 /-- one step of the model: answer and next state -/
 def Seg.step (s : Seg T) : Op T M → Ans A × Seg T
